@@ -30,9 +30,14 @@ package v2
 //@     && a.StartsAt == (s0 != 0 ? s0 : (e0 != 0 ? e0 : now))
 //@     && a.EndsAt == (e0 != 0 ? e0 : now + rt)
 //@     && a.Timeout == (t0 || e0 == 0)
+//@ uf validAlert(*alert.Alert) bool
 //@ func (*API).postAlertsHandler
 //@   props C13
 //@   nosafe
+//@   after call Alert).Validate assume (res0 == nil) == validAlert(ret("OpenAPIAlertsToAlerts")[rangeindex2 + 1])
+//@   at call removeEmptyLabels assert [empty-labels-of-each-alert] arg0 == ret("OpenAPIAlertsToAlerts")[rangeindex2 + 1].Labels
+//@   at call Alert).Validate assert [empty-labels-removed-before-validation] count("removeEmptyLabels") == count("Alert).Validate") + 1
+//@   at call provider.Alerts).Put assert [every-valid-alert-is-put] count("Alert).Validate") == len(ret("OpenAPIAlertsToAlerts")) && (forall k int :: 0 <= k && k < len(ret("OpenAPIAlertsToAlerts")) && validAlert(ret("OpenAPIAlertsToAlerts")[k]) ==> ret("OpenAPIAlertsToAlerts")[k] in elems(arg2))
 //@   requires api != nil && api.alertmanagerConfig != nil && api.alertmanagerConfig.Global != nil && api.alertmanagerConfig.Global.ResolveTimeout >= 0
 //@   after call Tracer).Start assume res0 != nil && res1 != nil
 //@   after call NewPostAlertsOK assume res0 != nil
@@ -46,6 +51,8 @@ package v2
 //@   loop 1 invariant forall i int, j int :: 0 <= i && i < j && j < len(alerts) ==> alerts[i] != alerts[j]
 //@   loop 2 invariant called("time.Now") && first("time.Now") == now
 //@   loop 2 invariant rangeindex < len(alerts) && fresh(validAlerts) && base(validAlerts) != base(alerts)
+//@   loop 2 invariant count("Alert).Validate") == rangeindex + 1 && count("removeEmptyLabels") == rangeindex + 1
+//@   loop 2 invariant forall k int :: 0 <= k && k <= rangeindex && validAlert(alerts[k]) ==> alerts[k] in elems(validAlerts)
 //@   loop 2 invariant forall i int :: 0 <= i && i < len(validAlerts) ==> (exists j int :: 0 <= j && j < len(alerts) && validAlerts[i] == alerts[j])
 //@   loop 2 invariant forall k int :: 0 <= k && k < len(alerts) ==> alerts[k] != nil && alerts[k].UpdatedAt == now && alerts[k].StartsAt != 0 && alerts[k].EndsAt != 0
 //@   noeffect requestLogger Alert).Validate removeEmptyLabels provider.Alerts).Put Firing Resolved Invalid WithEventRecording
